@@ -80,5 +80,10 @@ InvMergeLaw == Has => MergeLaw(A, B)
 (* well-keyed inputs give a well-keyed result (the IndexMap invariant is preserved) *)
 InvWellKeyed == (Has /\ WellKeyed(A) /\ WellKeyed(B) /\ Merge(A, B).ok) => WellKeyed(Merge(A, B).v)
 (* with well-keyed inputs descriptors and indices cannot conflict *)
-Emit == Has => PrintT(ToJson([op |-> "merge", ph |-> phase, wk |-> (WellKeyed(A) /\ WellKeyed(B)), A |-> A, B |-> B, exp |-> Merge(A, B)]))
+(* a mapping set is a partial function: the result does not depend on the order in which the entries were put into either *)
+(* side.  revB asks the driver to build B with its entries inserted in the opposite order (it matters where a level has   *)
+(* two keys: family "two")                                                                                                *)
+Emit ==
+    /\ Has => PrintT(ToJson([op |-> "merge", ph |-> phase, wk |-> (WellKeyed(A) /\ WellKeyed(B)), A |-> A, B |-> B, revB |-> FALSE, exp |-> Merge(A, B)]))
+    /\ phase = "two" => PrintT(ToJson([op |-> "merge", ph |-> "two-rev", wk |-> (WellKeyed(A) /\ WellKeyed(B)), A |-> A, B |-> B, revB |-> TRUE, exp |-> Merge(A, B)]))
 =============================================================================
